@@ -38,7 +38,7 @@ CHECKS.update({
 
 CHECKS["C13"] = dict(engine="mempool-walk", cat="exploration", ref="DESIGN.md §5 C13",
    technique="runtime monitoring: model-based random operation sequences and a concurrent stress tier (CheckTx tasks, status / builder-queue readers and the consensus side on a multi-thread runtime, stale snapshots, identical bytes racing, seeded jitter) on the real Mempool, with an in-crate structure walker (private pending/parked maps read under the mempool's own lock at quiescent points) and a status sweep; offline invariant oracle over the op log, observed interleavings counted",
-   text="Thousands of operations (inserts with gaps/duplicates/stale nonces, invalid-removals, block inclusions, balance and nonce moves, fee re-costing, expiry with a short TTL, bursts of >15 ready transactions followed by a drained balance) on 2-6 accounts x 3 assets; after every operation the private structure and the status of every accepted id are recorded and the oracle checks exactly-one-place, consecutive ready nonces, affordability against the balances shown, build order, stale-nonce removal and parked limits. Concurrent tier: 3-6 CheckTx tasks (15 % of transactions submitted by two tasks at once, snapshots published before or after maintenance), 1-3 readers and block inclusion / invalid-removal / balance and nonce moves / maintenance run concurrently per round; every call and return is sequence-numbered, readers' status and builder-queue observations are judged on line, and at the end of each round (all tasks joined) the same structure oracle runs after a final maintenance.",
+   text="Thousands of operations (inserts with gaps/duplicates/stale nonces, invalid-removals, block inclusions, balance and nonce moves, fee re-costing, expiry with a short TTL, bursts of >15 ready transactions followed by a drained balance) on 2-6 accounts x 3 assets; after every operation the private structure and the status of every accepted id are recorded and the oracle checks exactly-one-place, consecutive ready nonces, affordability against the balances shown, build order, stale-nonce removal and parked limits. Concurrent tier: 3-6 CheckTx tasks (15 % of transactions submitted by two tasks at once, snapshots published before or after maintenance), 1-3 readers and block inclusion / invalid-removal / balance and nonce moves / maintenance run concurrently per round; every call and return is sequence-numbered, readers' status and builder-queue observations are judged on line, and at the end of each round (all tasks joined) the same structure oracle runs after a final maintenance. A guarded hook in the mempool records the order of its lock sections (insert / maintenance / harness walk); the pools are walked after every concurrent maintenance run and a transaction whose insert section precedes a maintenance section that was shown a higher chain nonce must be absent from the following walks (one-shot accounts whose only transaction races the marking of its nonce as used provide the cases).",
    note="costs are those reported by CheckedTransaction::total_costs; callers respect the documented contract that shown nonces never decrease; cache bounds are not crossed so eviction cannot explain a missing status")
 
 CHECKS["C16"] = dict(engine="composer-bundles", cat="exploration", ref="DESIGN.md §5 C16",
@@ -72,7 +72,7 @@ def main():
      "version": 1,
      "setup_cmd": "./setup.sh",
      "hooks": {
-       "guard": "cargo feature `verif` (off by default) AND cfg(test)",
+       "guard": "cargo feature `verif` (off by default) AND cfg(test) for the harness module declarations; cargo feature `verif` alone for the mempool lock-section hook (crates/astria-sequencer/src/mempool/mod.rs: mod verif_hook + three record() calls)",
        "enable": "cargo test --offline --no-run --lib -p <crate> --features verif (CARGO_TARGET_DIR=/verif/target); harness sources are pulled in by #[path=\"/verif/harness/...\"] mod verif;",
        "baseline_off_cmd": "cd /repo && cargo nextest run --workspace --no-fail-fast --test-threads 8 --offline || cargo test --workspace --no-fail-fast --offline",
        "source_commits": hooks,
